@@ -115,12 +115,22 @@ def run_scripts(scripts, servertype, settings, unit=1):
     def main():
         sc = S.CUR
         sc.now = 1000.0
-        d = P.Daemon(host="127.0.0.1")
+        class Guarded(P.Daemon):
+            """lets in only who says the word (every proxy of these scripts does; so must whatever the library connects on its own)"""
+            def validateHandshake(self, conn, data):
+                if data != {"word": "let me in"}:
+                    raise errors.SecurityError("this daemon wants the word")
+                return "welcome"
+        d = Guarded(host="127.0.0.1")
         uri = d.register(make_target()(), "src")
         drv = memnet.ServerDriver(d)
+        import uuid
+        from Pyro5 import callcontext
         for script in scripts:
             sc.set_budget(30000)
             d.streaming_responses.clear()
+            # every other script's client marks all its calls with one correlation id of its own choosing
+            callcontext.current_context.correlation_id = uuid.uuid4() if len(traces) % 2 else None
             tr = [{"e": "cfg", "lifetime": lifetime * unit, "linger": linger * unit, "streaming": streaming, "server": servertype}]
             proxies = {}
             conn = {}          # proxy -> connection incarnation (0 = not connected)
@@ -139,6 +149,7 @@ def run_scripts(scripts, servertype, settings, unit=1):
             def connect(p):
                 if p not in proxies:
                     proxies[p] = P.Proxy(uri)
+                    proxies[p]._pyroHandshake = {"word": "let me in"}
                     # (every other script's proxies are told to retry failed calls; a fetch is not something to be repeated)
                     proxies[p]._pyroMaxRetries = 2 if len(traces) % 2 else 0
                 if proxies[p]._pyroConnection is None:
@@ -328,6 +339,7 @@ def run_scripts(scripts, servertype, settings, unit=1):
             except S.Hang:
                 pass
             traces.append(tr)
+        callcontext.current_context.correlation_id = None
         drv.shutdown()
         d.close()
     memnet.run(main, max_steps=50000000)
